@@ -270,11 +270,18 @@ pub fn dump(index: &Index) -> Result<Dump> {
       .push((Txid::load(*k.value()), v.value()));
   }
 
-  for result in rtx.open_table(TRANSACTION_ID_TO_TRANSACTION)?.iter()? {
-    let (k, v) = result?;
-    dump
-      .txid_to_transaction
-      .push((Txid::load(*k.value()), v.value().to_vec()));
+  // this table is only created when the first block is indexed
+  match rtx.open_table(TRANSACTION_ID_TO_TRANSACTION) {
+    Ok(table) => {
+      for result in table.iter()? {
+        let (k, v) = result?;
+        dump
+          .txid_to_transaction
+          .push((Txid::load(*k.value()), v.value().to_vec()));
+      }
+    }
+    Err(redb::TableError::TableDoesNotExist(_)) => {}
+    Err(err) => return Err(err.into()),
   }
 
   for result in rtx
